@@ -34,18 +34,28 @@ abbrev maxStr : Nat := 65535
 
 def okIf (b : Bool) : VRes := if b then .ok () else .error .packetValidation
 
+/-- `validate_optional_binary_length` -/
 def vOptLen : Option Bytes → VRes
   | none => .ok ()
   | some b => okIf (b.length ≤ maxStr)
 
+/-- `validate_string_length`: at most 65535 bytes and no null character (the strings are UTF-8 bytes here: U+0000 is the
+    byte 0x00 and nothing else contains that byte) -/
+def strFieldOk (b : Bytes) : Bool := b.length ≤ maxStr && !b.contains 0
+
+/-- `validate_optional_string_length` -/
+def vOptStr : Option Bytes → VRes
+  | none => .ok ()
+  | some b => okIf (strFieldOk b)
+
 /-- `validate_user_properties` (after the fix: name and value) -/
 def vUserProps : UserProps → VRes
   | none => .ok ()
-  | some ps => okIf (ps.all (fun p => p.name.length ≤ maxStr && p.value.length ≤ maxStr))
+  | some ps => okIf (ps.all (fun p => strFieldOk p.name && strFieldOk p.value))
 
 /-- `is_valid_topic` -/
 def isValidTopic (t : Bytes) : Bool :=
-  !t.isEmpty && t.length ≤ maxStr && !t.contains 35 && !t.contains 43
+  !t.isEmpty && t.length ≤ maxStr && !t.contains 35 && !t.contains 43 && !t.contains 0
 
 /-- split on '/' (0x2F), like `str::split('/')`: always at least one segment -/
 def splitSlash : Bytes → List Bytes
@@ -95,7 +105,7 @@ def scanSegs : List Bytes → Nat → FilterScan → FilterScan
 
 /-- `compute_topic_filter_properties` -/
 def filterProps (t : Bytes) : FilterProps :=
-  if t.isEmpty || t.length > maxStr then { isValid := false }
+  if t.isEmpty || t.length > maxStr || t.contains 0 then { isValid := false }
   else
     let segs := splitSlash t
     let st := scanSegs segs 0 {}
@@ -126,10 +136,10 @@ def vPublishOutbound (p : Publish) : VRes := do
    | some rt => do okIf (isValidTopic rt); okIf (rt.length ≤ maxStr))
   vUserProps p.userProps
   vOptLen p.correlationData
-  vOptLen p.contentType
+  vOptStr p.contentType
 
 def vAckOutbound (p : Ack) : VRes := do
-  vOptLen p.reasonString
+  vOptStr p.reasonString
   vUserProps p.userProps
 
 def vSubscribeOutbound (p : Subscribe) : VRes := do
@@ -144,25 +154,25 @@ def vUnsubscribeOutbound (p : Unsubscribe) : VRes := do
   vUserProps p.userProps
 
 def vDisconnectOutbound (p : Disconnect) : VRes := do
-  vOptLen p.reasonString
+  vOptStr p.reasonString
   vUserProps p.userProps
-  vOptLen p.serverReference
+  vOptStr p.serverReference
 
 def vConnectOutbound (p : Connect) : VRes := do
-  vOptLen p.clientId
+  vOptStr p.clientId
   okIf (p.receiveMaximum ≠ some 0)
   okIf (p.maximumPacketSize ≠ some 0)
   okIf (!(p.authData.isSome && p.authMethod.isNone))
-  vOptLen p.authMethod
+  vOptStr p.authMethod
   vOptLen p.authData
-  vOptLen p.username
+  vOptStr p.username
   vOptLen p.password
   vUserProps p.userProps
   (match p.will with
    | none => .ok ()
    | some w => do
-     vOptLen w.contentType
-     vOptLen w.responseTopic
+     vOptStr w.contentType
+     vOptStr w.responseTopic
      vOptLen w.correlationData
      vUserProps w.userProps
      okIf (w.topic.length ≤ maxStr)
@@ -174,9 +184,9 @@ def vConnectOutbound (p : Connect) : VRes := do
 
 def vAuthOutbound (p : Auth) : VRes := do
   okIf p.authMethod.isSome
-  vOptLen p.authMethod
+  vOptStr p.authMethod
   vOptLen p.authData
-  vOptLen p.reasonString
+  vOptStr p.reasonString
   vUserProps p.userProps
 
 def validateOutbound : Packet → VRes
